@@ -127,8 +127,13 @@ def classify(c, impl, model=None):
     why = oracle(c, impl) or ""
     if " sel" in why and model and not shardprop.diffs(c, impl, model) and re.search(r"wlost=[0-9]", model):
         return "OpenWalFilePruned"
-    if " rp" in why and model and not shardprop.diffs(c, impl, model) and re.search(r"stalerows=[0-9]", model):
-        return "SegmentLabelReusedStaleCache"
+    if (" rp" in why or " sel" in why or " cnt" in why) and model and not shardprop.diffs(c, impl, model) and re.search(r"stalerows=[0-9]", model):
+        # (the comparison accepts a read that misses rows only if they are rows of a re-created label, see shardlib)
+        lost = re.search(r"obs#(\d+) ", why)
+        n = int(lost.group(1)) if lost else -1
+        obs = model.split(" | ")
+        if 0 <= n < len(obs) and re.search(r"stalerows=[0-9]", obs[n]):
+            return "SegmentLabelReusedStaleCache"
     if " cnt" in why and model and not shardprop.diffs(c, impl, model):
         # which known aggregate class: rows of a retired type still readable from a partially drained input
         # (or from a leftover directory after a crash); the model must predict this very count
